@@ -410,7 +410,7 @@ class Process:
         if self.pid == 0 and not os.path.exists(
             f"{self._procfs_path}/{self.pid}/psinfo"
         ):
-            raise AccessDenied(self.pid)
+            raise AccessDenied(self.pid, self._name)
         ret = cext.proc_basic_info(self.pid, self._procfs_path)
         assert len(ret) == len(proc_info_map)
         return ret
